@@ -354,6 +354,32 @@ impl Prop for Corruptions {
             Ok(r) => r,
             Err(p) => fail!(p.signature(), "Labels::load_from_strings panicked on {:?}: {}", c.lines, p.msg),
         };
+        // the line grammar, restated independently of the loader: a line is blank (skipped), or one
+        // label, or "<time> <time> <label>" with single spaces; times are decimal floating-point
+        // literals; anything else (a lone pair of times, a leading separator, an unparsable time or
+        // label) is not a well-formed label line and must be reported as an error
+        let well_formed = |line: &str| -> bool {
+            use std::str::FromStr;
+            if line.is_empty() {
+                return true;
+            }
+            let mut it = line.splitn(3, ' ');
+            let a = it.next().unwrap_or("");
+            match (it.next(), it.next()) {
+                (None, _) => jlabel::Label::from_str(a).is_ok(),
+                (Some(_), None) => false,
+                (Some(b), Some(rest)) => a.parse::<f64>().is_ok() && b.parse::<f64>().is_ok() && jlabel::Label::from_str(rest).is_ok(),
+            }
+        };
+        let expect_ok = c.lines.iter().all(|l| well_formed(l));
+        ensure!(
+            direct.is_ok() == expect_ok,
+            "label-grammar",
+            "Labels::load_from_strings returned {} for text that is {} by the line grammar: {:?}",
+            if direct.is_ok() { "Ok" } else { "Err" },
+            if expect_ok { "well-formed" } else { "NOT well-formed" },
+            c.lines
+        );
         // with alignment on, parsed times must be finite and small, else the case is out of domain
         if c.alignment {
             if let Ok(l) = jbonsai::label::Labels::load_from_strings(cond.get_sampling_frequency(), cond.get_fperiod(), c.lines.as_slice()) {
